@@ -50,7 +50,11 @@ const QUICK_PROGRAMS: &[&str] = &[
     "at=ceil-1 h=1,1,1 : clone | clone | unwrap",
     "at=ceil h=1,1 : clone read drop | mutate drop",
     "at=ceil-1 h=1,1 : clone mutate | clone drop",
+    "at=ceil-1 h=1,1 : clone | clone",
 ];
+
+/// Fixed programs of the thorough tier only.
+const THOROUGH_PROGRAMS: &[&str] = &["at=ceil-1 h=1,1,1 : clone | clone | clone"];
 
 struct Args {
     tier: String,
@@ -409,6 +413,7 @@ fn monitor_expected(kind: &str) -> &'static str {
         "leak" => "the buffer is released exactly once, when the last handle is dropped",
         "content" => "each value still reads its expected content: final payload == number of granted mutations",
         "unique-while-shared" => "in-place mutable access or ownership is granted only if no other handle still refers to the buffer",
+        "count-mismatch" => "the share count never exceeds its ceiling: a clone at the ceiling must take a private copy",
         _ => "-",
     }
 }
@@ -435,6 +440,7 @@ fn main() {
     } else {
         lines.extend(QUICK_PROGRAMS.iter().map(|s| s.to_string()));
         if args.tier == "thorough" {
+            lines.extend(THOROUGH_PROGRAMS.iter().map(|s| s.to_string()));
             lines.extend(prog::generate(args.seed, 30));
             lines.extend(prog::generate_ceiling(args.seed, 8));
         }
@@ -523,11 +529,20 @@ fn main() {
         .filter(|e| e.problem.is_some())
         .filter(|e| seen.insert(("impl-vs-model".into(), e.prog.line())))
         .collect();
-    let monitors: Vec<&Eval> = evals
-        .iter()
-        .filter(|e| is_monitor(&e.loom.verdict))
-        .filter(|e| seen.insert((e.loom.verdict.clone(), e.prog.line())))
-        .collect();
+    // (a listed program that fails as is wins over one that merely shrinks to it)
+    let mut monitors: Vec<(usize, &Eval)> = Vec::new();
+    for pass in 0..2 {
+        for (i, e) in evals.iter().enumerate() {
+            if is_monitor(&e.loom.verdict)
+                && (e.shrunk_from.is_none()) == (pass == 0)
+                && seen.insert((e.loom.verdict.clone(), e.prog.line()))
+            {
+                monitors.push((i, e));
+            }
+        }
+    }
+    monitors.sort_by_key(|(i, _)| *i);
+    let monitors: Vec<&Eval> = monitors.into_iter().map(|(_, e)| e).collect();
     let loom_errors: Vec<&Eval> = evals
         .iter()
         .filter(|e| e.loom.verdict == "error" || e.loom.verdict == "branch-limit")
